@@ -2,7 +2,35 @@
 
 package expressions
 
-// Contracts for govc (see /verif/DESIGN.md, C08). Comment-only file.
+// Contracts for govc (see /verif/DESIGN.md, C08 / C10 / C11). Comment-only file.
+//
+// app(stage, ctx) is the string a compiled stage yields for a context. Stages are treated as
+// (deterministic, total) functions of the context: that is the inductive hypothesis of C08/C10.
+// ctx_key / ctx_match are what a context answers for a key / a group index.
+
+//@ smt
+//@ (declare-fun app (Int Int) Str)
+//@ (declare-fun ctx_key (Int Str) Str)
+//@ (declare-fun ctx_match (Int Int) Str)
+//@ end
+
+// A compiled stage is never nil (the compiler only ever produces closures).
+//@ nonnil rare/pkg/expressions.KeyBuilderStage
+//@ nonnil rare/pkg/expressions.KeyBuilderContext
+
+//@ functype rare/pkg/expressions.KeyBuilderStage
+//@   params (this, ctx)
+//@   pure
+//@   ensures result == app(this, ctx)
+
+//@ iface rare/pkg/expressions.KeyBuilderContext.GetKey
+//@   params (this, key)
+//@   pure
+//@   ensures result == ctx_key(this, key)
+//@ iface rare/pkg/expressions.KeyBuilderContext.GetMatch
+//@   params (this, idx)
+//@   pure
+//@   ensures result == ctx_match(this, idx)
 
 // A KeyBuilder always owns a function table (NewKeyBuilderEx makes it; the field is unexported,
 // so no other package can reset it).
@@ -39,9 +67,44 @@ package expressions
 // helpers of the compiler: they build new values; none of them can reach a KeyBuilder
 //@ func splitTokenizedArguments
 //@   modifies world except KeyBuilder
+// ---- C10: static optimisation preserves the value ----
+// app(stage, ctx) is the string a stage yields for a context (declared with the stage functype).
+// any_ctx is an arbitrary but fixed context: what is proved for it holds for every context.
+// opt_in / opt_out are, for the builder under construction, the concatenated values (at any_ctx)
+// of the input stages consumed so far and of the output stages emitted so far.
+//@ smt
+//@ (declare-const any_ctx Int)
+//@ end
+//@ ghost opt_in(rare/pkg/expressions.CompiledKeyBuilder) str
+//@ ghost opt_out(rare/pkg/expressions.CompiledKeyBuilder) str
+
+// The probe: a stage that made no lookup on the counting context is taken to yield the same
+// string for every context. (This is the premise the purity rule and the per-helper contracts
+// support; here it is the stated meaning of ok, assumed where the result is used.)
+//@   ensures [assumed-constant] ok ==> app(stage, any_ctx) == ret
+// a literal stage yields its text: proved for the closure body (stageLiteral$1); that app() of
+// the returned closure value is what its body returns is the meaning of app (assumed)
+//@ func stageLiteral
+//@   pure
+//@   ensures result != nil
+//@   ensures [assumed-app] app(result, any_ctx) == s
+//@ func stageLiteral$1
+//@   pure
+//@   ensures result == *s
+
+// optimize: output stages + pending literal always spell the input consumed so far; a dynamic
+// stage is emitted only after the pending literal was flushed; at the end nothing is pending.
 //@ func (*CompiledKeyBuilder).optimize
 //@   modifies world except KeyBuilder
 //@   ensures result != nil
+//@   ghostset at "sb.WriteString(constVal)" : opt_in(ret) := old(opt_in(ret)) + constVal
+//@   ghostset at "ret.stages = append(ret.stages, stageLiteral(sb.String()))"#1 : opt_out(ret) := old(opt_out(ret)) + sb_content(addrof(sb))
+//@   ghostset at "ret.stages = append(ret.stages, stage)" : opt_out(ret) := old(opt_out(ret)) + app(stage, any_ctx)
+//@   ghostset at "ret.stages = append(ret.stages, stage)" : opt_in(ret) := old(opt_in(ret)) + app(stage, any_ctx)
+//@   ghostset at "ret.stages = append(ret.stages, stageLiteral(sb.String()))"#2 : opt_out(ret) := old(opt_out(ret)) + sb_content(addrof(sb))
+//@   assert at "ret.stages = append(ret.stages, stage)" : sb_content(addrof(sb)) == ""
+//@   assert at "return ret" : opt_out(ret) == opt_in(ret)
+//@   loop 1 invariant opt_out(ret) + sb_content(addrof(sb)) == opt_in(ret)
 //@ func (*CompiledKeyBuilder).joinStages
 //@   modifies world except KeyBuilder
 //@ func EvalStaticStage
